@@ -381,7 +381,7 @@ Section with_seq_proofs.
       eexists. split; [done|]. by eapply rel_upd_same.
     - (* len *) specialize (Hone h). destruct (Xs !! h) as [X|] eqn:EX; [|by rewrite Hone].
       destruct Hone as (a & -> & Hwf & <-).
-      destruct (as_Len_spec a o Hwf (Hord _ eq_refl)) as (H1 & H2 & H3). destruct (as_Len a o) as [a' n]. cbn in *. subst n.
+      destruct (as_Len_spec a o Hwf (Hord _ EX)) as (H1 & H2 & H3). destruct (as_Len a o) as [a' n]. cbn in *. subst n.
       eexists. split; [done|]. by eapply rel_upd_same.
     - (* slice *) specialize (Hone h). destruct (Xs !! h) as [X|] eqn:EX; [|by rewrite Hone].
       destruct Hone as (a & -> & Hwf & <-).
@@ -398,7 +398,7 @@ Section with_seq_proofs.
       eexists. split; [done|]. by eapply rel_upd_same.
     - (* clone *) specialize (Hone h). destruct (Xs !! h) as [X|] eqn:EX; [|by rewrite Hone].
       destruct Hone as (a & -> & Hwf & <-).
-      destruct (as_Clone_spec a o Hwf (Hord _ eq_refl)) as (a' & c & E & H1 & H2 & H3 & H4). rewrite E. cbn.
+      destruct (as_Clone_spec a o Hwf (Hord _ EX)) as (a' & c & E & H1 & H2 & H3 & H4). rewrite E. cbn.
       eexists. split; [done|]. apply rel_snoc; [|done|done]. by eapply rel_upd_same.
     - (* addset *) destruct (Nat.eqb_spec h g) as [->|Hne]; [done|].
       pose proof (Hone h) as Hh. pose proof (Hone g) as Hg.
@@ -406,7 +406,7 @@ Section with_seq_proofs.
       destruct Hh as (a & -> & Hwfa & <-).
       destruct (Xs !! g) as [Y|] eqn:EY; [|by rewrite Hg].
       destruct Hg as (b & -> & Hwfb & <-).
-      destruct (as_AddSet_spec a b og Hwfa Hwfb (Hord _ eq_refl)) as (a' & b' & E & H1 & H2 & H3 & H4). rewrite E. cbn.
+      destruct (as_AddSet_spec a b og Hwfa Hwfb (Hord _ EY)) as (a' & b' & E & H1 & H2 & H3 & H4). rewrite E. cbn.
       eexists. split; [done|]. eapply rel_upd_same; [by apply rel_upd| |done|done].
       by rewrite list_lookup_insert_ne.
     - (* removeset *) destruct (Nat.eqb_spec h g) as [->|Hne]; [done|].
@@ -415,7 +415,7 @@ Section with_seq_proofs.
       destruct Hh as (a & -> & Hwfa & <-).
       destruct (Xs !! g) as [Y|] eqn:EY; [|by rewrite Hg].
       destruct Hg as (b & -> & Hwfb & <-).
-      destruct (as_RemoveSet_spec a b og Hwfa Hwfb (Hord _ eq_refl)) as (a' & b' & E & H1 & H2 & H3 & H4). rewrite E. cbn.
+      destruct (as_RemoveSet_spec a b og Hwfa Hwfb (Hord _ EY)) as (a' & b' & E & H1 & H2 & H3 & H4). rewrite E. cbn.
       eexists. split; [done|]. eapply rel_upd_same; [by apply rel_upd| |done|done].
       by rewrite list_lookup_insert_ne.
     - (* binary *) destruct (Nat.eqb_spec h g) as [->|Hne]; [done|].
@@ -425,7 +425,7 @@ Section with_seq_proofs.
       destruct (Xs !! g) as [Y|] eqn:EY; [|by rewrite Hg].
       destruct Hg as (b & -> & Hwfb & <-).
       destruct Hord as [Ho1 Ho2].
-      destruct (as_Bin_spec bo a b oh og Hwfa Hwfb (Ho1 _ eq_refl) (Ho2 _ eq_refl))
+      destruct (as_Bin_spec bo a b oh og Hwfa Hwfb (Ho1 _ EX) (Ho2 _ EY))
         as (r & a' & b' & E & H1 & H2 & H3 & H4 & H5 & H6). rewrite E. cbn.
       eexists. split; [done|]. apply rel_snoc; [|done|done].
       eapply rel_upd_same; [by eapply rel_upd_same|done|done|done].
